@@ -440,6 +440,10 @@ spif_socket_accept(spif_socket_t self)
 
     /* We got one.  Create and return a new socket object for the accepted connection. */
     tmp = spif_socket_dup(self);
+    if (tmp->fd >= 0) {
+        /* The copy holds a duplicate of the listening descriptor; it gets the accepted one instead. */
+        close(tmp->fd);
+    }
     tmp->fd = newfd;
     SPIF_SOCKET_FLAGS_CLEAR(tmp, (SPIF_SOCKET_FLAGS_LISTEN | SPIF_SOCKET_FLAGS_HAVE_INPUT | SPIF_SOCKET_FLAGS_CAN_OUTPUT));
     if (SPIF_SOCKET_FLAGS_IS_SET(self, SPIF_SOCKET_FLAGS_FAMILY_INET)) {
